@@ -228,7 +228,32 @@ const SETTLE: Duration = Duration::from_millis(250);
 /// upper bound when something is expected to arrive (the wait ends as soon as it does)
 const ARRIVE: Duration = Duration::from_secs(4);
 
-async fn run_async(scn: &Scn, blobs: &mut HashMap<Vec<u8>, u32>) -> Raw {
+/// Which `Conn` ops the configuration and the history so far turn away as a second session of a live peer (a
+/// function of the scenario alone): those peers do what real ones do and send their table right behind the
+/// KEEPALIVE, without waiting for the verdict. A session that was never accepted has no routes: whatever the
+/// unit makes of that UPDATE shows in the gate's output and in the RIB.
+fn eager_conns(scn: &Scn) -> Vec<usize> {
+    let mut live: Vec<(u32, u32, usize, bool)> = vec![]; // addr, asn, connection index, still up
+    let mut out = vec![];
+    let mut terminated = false;
+    let mut ci = 0usize;
+    for (opi, op) in scn.ops.iter().enumerate() {
+        match op {
+            Op::Conn(a, n) => {
+                let ok = !terminated && spec_match(&scn.cfg, *a).map(|e| spec_allows(e, *n)).unwrap_or(false);
+                if ok { if live.iter().any(|l| l.3 && l.0 == *a && l.1 == *n) { out.push(opi); } else { live.push((*a, *n, ci, true)); } }
+                ci += 1;
+            }
+            Op::Fin(k) | Op::Rst(k) | Op::Garbage(k, _) | Op::Hold(k) => for l in live.iter_mut() { if l.2 == *k { l.3 = false; } },
+            Op::Terminate => terminated = true,
+            _ => {}
+        }
+    }
+    out
+}
+
+async fn run_async(scn: &Scn, blobs: &mut HashMap<Vec<u8>, u32>, qs: &[Pfx]) -> Raw {
+    let eager = eager_conns(scn);
     let reg = Arc::new(ving::new_register());
     let collected: Arc<Mutex<Vec<Update>>> = Arc::new(Mutex::new(vec![]));
     let mut unit = None;
@@ -283,7 +308,17 @@ async fn run_async(scn: &Scn, blobs: &mut HashMap<Vec<u8>, u32>) -> Raw {
                             if t.elapsed() > Duration::from_secs(3) { verdict = "stuck".into(); break; }
                             match read_frame(&mut s, Duration::from_millis(5)).await {
                                 Frame::Msg(1, _) => got_open = true,
-                                Frame::Msg(4, _) => { if !got_ka { let _ = s.write_all(&keepalive()).await; } got_ka = true; }
+                                Frame::Msg(4, _) => {
+                                    if !got_ka {
+                                        let mut out = keepalive();
+                                        if eager.contains(&opi) && !qs.is_empty() {
+                                            let u = Upd { attr: 900 + opi as u32, ann: vec![Nlri { pfx: qs[0], safi: Safi::U }], wd: vec![], mp4: false, corrupt: 0 };
+                                            if let Ok((pdu, pas)) = encode_update(&u) { blobs.insert(pas, u.attr); out.extend_from_slice(&pdu); }
+                                        }
+                                        let _ = s.write_all(&out).await;
+                                    }
+                                    got_ka = true;
+                                }
                                 Frame::Msg(3, b) => { verdict = format!("notif{}.{}", b.first().copied().unwrap_or(0), b.get(1).copied().unwrap_or(0)); }
                                 Frame::Msg(_, _) => {}
                                 Frame::Eof => { if verdict.is_empty() { verdict = if got_open { "rejected".into() } else { "nocfg".into() }; } break; }
@@ -452,7 +487,7 @@ fn run_scn(scn: &Scn, qs: &[Pfx]) -> Outcome {
     let rt = tokio::runtime::Builder::new_multi_thread().worker_threads(2).thread_name(tname.clone()).enable_all().build().unwrap();
     let mut rib = RealRib::new();
     let mut blobs = HashMap::new();
-    let raw = rt.block_on(run_async(scn, &mut blobs));
+    let raw = rt.block_on(run_async(scn, &mut blobs, qs));
     rt.shutdown_timeout(Duration::from_millis(200));
     let panics: Vec<String> = { let mut g = PANICS.lock().unwrap(); let (mine, rest): (Vec<_>, Vec<_>) = g.drain(..).partition(|(t, _)| *t == tname); *g = rest; mine.into_iter().map(|(_, m)| m).collect() };
     rib.blobs = blobs;
